@@ -398,6 +398,7 @@ func checkC07(c c07Case) obs.Result {
 	flag(len(c.Doc.Noise) > 0, "crlf-noise")
 	flag(strings.ContainsAny(conf.Seg, "\r\n"), "newline-delimiter")
 	flag(c.Doc.Trailing != "", "trailing-crlf")
+	flag(c.Doc.NoFinalDelim, "no-final-delimiter")
 	flag(emptyElem, "empty-element")
 	flag(trailingEmpty, "trailing-empty-element")
 	flag(gratuitous, "gratuitous-escape")
